@@ -304,14 +304,15 @@ func (s *SMF) WriteTo(f io.Writer) (size int64, err error) {
 			wr.SetDelta(ev.Delta)
 			err = wr.Write(ev.Message)
 			if err != nil {
-				break
+				return wr.output.size, err
 			}
 		}
 
 		err = wr.writeChunkTo(wr.output)
 
+		// the error must not be swallowed, otherwise e.g. WriteFile would keep a truncated file
 		if err != nil {
-			break
+			return wr.output.size, err
 		}
 	}
 
